@@ -114,10 +114,11 @@ def drive(cfg, state, ops, tgt, info, nw, ctx):
                 if box is not None:
                     pos = np.clip(pos, box[0], box[1])
                 for i, kind in enumerate(cfg.get("limits", []) if cls in ("gibbs", "metropolis") else []):
+                    kind = S.limit_kind(cfg, i)
                     if kind == "nonneg":
                         pos[i] = abs(pos[i])
-                    elif kind == "bounded":
-                        lo, hi = S.gibbs_interval(cfg, i)
+                    elif kind in ("bounded", "both"):
+                        lo, hi = S.support_interval(cfg, i)
                         pos[i] = min(max(pos[i], lo), hi)
                 if cfg["target"]["kind"] == "cliff":
                     # keep installed points off (and on the low side of) the discontinuities: from a point on top of a 100-nat cliff
